@@ -9,7 +9,10 @@
 (*     S-(..) / O-(..) items - followed by a key that occurs in no sequence;   *)
 (*   - a pause of w ticks (w around the timeout) at every item boundary,       *)
 (*     then the rest of the sequence;                                          *)
-(*   - the leader once more at every item boundary, then the rest.             *)
+(*   - a leader (the same, or a second one with another mode) at every item     *)
+(*     boundary, then the rest;                                                 *)
+(*   - the complete sequence / an abandoned beginning with an OS key repeat       *)
+(*     after every key press.                                                     *)
 (* A history is a harness script: <<"d", code>>, <<"u", code>>, <<"t", n>>.     *)
 (* TLC enumerates SeScripts(..) per table and prints them; they are run on    *)
 (* the real code and the recorded traces are judged by the monitor P_C12.      *)
@@ -50,7 +53,15 @@ SeOne(S) == CHOOSE x \in S : TRUE
 
 \* all histories for one definition; lead = the steps that enter the mode, f = a key of no sequence,
 \* waits = the pauses tried at item boundaries, tail = ticks at the end
-SeDefScripts(items, lead, f, waits, tail) ==
+\* an OS repeat of every key one tick after it went down (the key is held long enough to auto-repeat)
+RECURSIVE SeWithRepeats(_)
+SeWithRepeats(sc) ==
+  IF sc = <<>> THEN <<>>
+  ELSE IF Head(sc)[1] = "d" THEN <<Head(sc), SeT(1), <<"r", Head(sc)[2]>>>> \o SeWithRepeats(Tail(sc))
+  ELSE <<Head(sc)>> \o SeWithRepeats(Tail(sc))
+
+\* re = the steps of the leader pressed again in the middle (the same leader, or another one with its own mode)
+SeDefScripts(items, lead, re, f, waits, tail) ==
   LET n == Len(items)
       full == {lead \o b \o <<SeT(tail)>> : b \in SeDef(items)}
       dead == UNION {{lead \o b \o SeTap(f) \o <<SeT(tail)>> : b \in SeDef(SubSeq(items, 1, k))} : k \in 0..(n - 1)}
@@ -59,11 +70,14 @@ SeDefScripts(items, lead, f, waits, tail) ==
       paused == UNION {{lead \o SeOne(SeDef(SubSeq(items, 1, k))) \o <<SeT(w)>> \o SeOne(SeDef(SubSeq(items, k + 1, n)))
                           \o <<SeT(tail)>> : w \in waits} : k \in 0..(n - 1)}
       \* the leader again in the middle of the sequence (ignored, or a restart with hidden-suppressed)
-      again == IF lead = <<>> THEN {}
-               ELSE {lead \o SeOne(SeDef(SubSeq(items, 1, k))) \o lead \o SeOne(SeDef(SubSeq(items, k + 1, n)))
+      again == IF re = <<>> THEN {}
+               ELSE {lead \o SeOne(SeDef(SubSeq(items, 1, k))) \o re \o SeOne(SeDef(SubSeq(items, k + 1, n)))
                        \o <<SeT(tail)>> : k \in 1..(n - 1)}
-  IN full \cup dead \cup broken \cup paused \cup again
+      \* held keys auto-repeat: the complete sequence and one abandoned beginning, with an OS repeat after every press
+      held == {lead \o SeWithRepeats(SeOne(SeDef(items))) \o <<SeT(tail)>>,
+               lead \o SeWithRepeats(SeOne(SeDef(SubSeq(items, 1, n - 1))) \o SeTap(f)) \o <<SeT(tail)>>}
+  IN full \cup dead \cup broken \cup paused \cup again \cup held
 
-SeScripts(table, lead, f, waits, tail) ==
-  UNION {SeDefScripts(table[i], lead, f, waits, tail) : i \in DOMAIN table}
+SeScripts(table, lead, re, f, waits, tail) ==
+  UNION {SeDefScripts(table[i], lead, re, f, waits, tail) : i \in DOMAIN table}
 =============================================================================
